@@ -192,6 +192,7 @@ def case_bounded_iter(ctx, env, rng, cid):
 # a differing case is only judged when every heartbeat was answered within two thirds of it
 # (an implementation that waits for the answer of its probe would have got it in time).
 _HB_HEALTHY_CLIENT_S = 20.0
+_GAP_HEALTHY_CLIENT_S = 10.0   # a third of the library's 30 s probe window
 _WALL_PER_THRESHOLD_S = 1.0   # the client's threshold passes in this much wall time
 
 
@@ -318,11 +319,28 @@ def scen_liveness(ctx, env, rng, cid):
       return got, e, want
     return got, None, want
 
+  # How long a runnable thread of this process went without running (machine load, GIL):
+  # the library polls `is_alive` with sleeps of 0.1 client-seconds inside a 30
+  # client-second window, i.e. 83 ms of wall time at 360x; a thread that is not
+  # scheduled for a third of that cannot tell an unanswered heartbeat from its own nap.
+  gap = {'max': 0.0, 'stop': False}
+
+  def monitor():
+    last = _time.monotonic()
+    while not gap['stop']:
+      _time.sleep(0.001)
+      now = _time.monotonic()
+      gap['max'] = max(gap['max'], now - last - 0.001)
+      last = now
+
+  mon = threading.Thread(target=monitor, daemon=True)
   try:
     cu.time = clock
     cu.asyncio = _DilatedAsyncio(scale)
     courier.sim.time_scale = scale
+    mon.start()
     finished, res, exc = env.cwork.run_with_watchdog(run, 30)
+    gap['stop'] = True
     t_end = _time.monotonic()
     # an independent probe: does the server answer a heartbeat right now?
     t_probe = _time.monotonic()
@@ -333,6 +351,7 @@ def scen_liveness(ctx, env, rng, cid):
       own_probe = math.inf
     hb, data = _heartbeat_latencies(courier, addr, i0, t_end)
   finally:
+    gap['stop'] = True
     cu.time = saved_clock
     cu.asyncio = saved_asyncio
     courier.sim.time_scale = saved_scale
@@ -355,13 +374,16 @@ def scen_liveness(ctx, env, rng, cid):
     ctx.count(f'liveness_judged_{cls}')
     return
   # Something differs: only judged when the machine kept up with the fast clock.
-  healthy = hb_client_s <= _HB_HEALTHY_CLIENT_S
+  gap_client_s = gap['max'] * scale
+  desc.update(longest_scheduling_gap_client_secs=round(gap_client_s, 1))
+  healthy = hb_client_s <= _HB_HEALTHY_CLIENT_S and gap_client_s <= _GAP_HEALTHY_CLIENT_S
   if cls in ('no_client_held', 'client_held', 'short_eval'):
     healthy = healthy and data_client_s <= threshold / 2
   if not healthy:
     ctx.count('liveness_not_judged_machine_too_slow')
-    ctx.inconclusive_case('transport answers too slow for the dilated client clock '
-                          f'(heartbeat {hb_client_s:.1f} / call {data_client_s:.1f} client-s)', case)
+    ctx.inconclusive_case('machine too slow for the dilated client clock '
+                          f'(heartbeat {hb_client_s:.1f} / call {data_client_s:.1f} / scheduling gap '
+                          f'{gap_client_s:.1f} client-s)', case)
     return
   ctx.count('liveness_judged')
   ctx.count(f'liveness_judged_{cls}')
